@@ -411,9 +411,26 @@ func runC18Case(c cfg, seed uint64, f fault, keys map[string]struct{}) (reached 
 			viol("OnOpen ran for a connection whose registration failed", fmt.Sprintf("%d connections arrived, the registration of the last one failed, OnOpen ran %d times", f.k, got))
 		}
 		if fi, ok := vsys.Info(victimFD); ok && fi.State == 1 && fi.Gen > 0 && fdIdent(victimFD) != "" {
-			ok2, _ := waitCondQuick(2*time.Second, func() bool { fi2, _ := vsys.Info(victimFD); return fi2.State != 1 })
-			if !ok2 {
-				viol("descriptor of the failed connection not released", fmt.Sprintf("fd %d is still open", victimFD))
+			// decided in the loops' logical time, not by the clock: the failing registration and its clean-up are one call on
+			// one loop, so once EVERY loop has entered another callback that call has returned
+			base := mon.loopCallsAll()
+			gone := func() bool { fi2, _ := vsys.Info(victimFD); return fi2.State != 1 || fdIdent(victimFD) == "" }
+			allAdvanced := func() bool {
+				now := mon.loopCallsAll()
+				for l, n := range base {
+					if now[l] <= n {
+						return false
+					}
+				}
+				return len(base) > 0
+			}
+			okw, v := waitCond(6*time.Second, func() bool { return gone() || allAdvanced() })
+			if !gone() {
+				if okw || verdictStuck(v) {
+					viol("descriptor of the failed connection not released", fmt.Sprintf("fd %d is still open although every loop has run further callbacks since (or is idle: %s)", victimFD, v))
+				} else {
+					res.Inconc("c18 %s %s: descriptor %d of the failed registration still open, loops neither idle nor advancing (%s)", c, f, victimFD, v)
+				}
 			}
 		}
 	} else if victim == nil {
@@ -449,10 +466,19 @@ func runC18Case(c cfg, seed uint64, f fault, keys map[string]struct{}) (reached 
 			if n := atomic.LoadInt32(&victim.closes); n != 1 {
 				viol("victim saw OnClose more than once", fmt.Sprintf("%d times", n))
 			}
-			if fi, ok := vsys.Info(victimFD); ok && fi.State == 1 && fi.Gen > 0 {
-				// still owned: is it the same generation (not yet released) or a new connection on the same number?
-				if id := fdIdent(victimFD); id != "" && !reusedByNewConn(mon, victimFD, victim) {
-					viol("descriptor of the failed connection not released", fmt.Sprintf("connection %d saw OnClose but its descriptor %d is still open (%s)", victim.tok, victimFD, id))
+			// the descriptor is released by the same close() that delivered OnClose: once the victim's loop has entered another
+			// callback, that close() has returned (logical time of the loop, no clock)
+			released := func() bool {
+				fi, ok := vsys.Info(victimFD)
+				return !ok || fi.State != 1 || fi.Gen == 0 || fdIdent(victimFD) == "" || reusedByNewConn(mon, victimFD, victim)
+			}
+			loopMovedOn := func() bool { return mon.loopCalls(victim.loop) > atomic.LoadInt64(&victim.closeLoopCalls) }
+			okw, v := waitCond(6*time.Second, func() bool { return released() || loopMovedOn() })
+			if !released() {
+				if okw || verdictStuck(v) {
+					viol("descriptor of the failed connection not released", fmt.Sprintf("connection %d saw OnClose but its descriptor %d is still open (%s) although its loop has moved on (or is idle: %s)", victim.tok, victimFD, fdIdent(victimFD), v))
+				} else {
+					res.Inconc("c18 %s %s: victim's descriptor %d still open, its loop neither idle nor advancing (%s)", c, f, victimFD, v)
 				}
 			}
 		}
